@@ -116,6 +116,13 @@ func compareBackends(c *ProgCase, r *CaseRun) (err error, skipFamily string) {
 			return fmt.Errorf("%s yields %s but %s yields %s\n src: %s\n env: %s", a.O.Be, a.Val.Render(), b.O.Be, b.Val.Render(), clip(r.Src), envSummary(c)), ""
 		}
 	}
+	// the second invocation of each Callable: a back end that then behaves differently from its
+	// own first invocation differs from the back ends that do not
+	for _, b := range r.Runs {
+		if b.Again != "" {
+			return fmt.Errorf("%s: %s\n src: %s\n env: %s", b.O.Be, b.Again, clip(r.Src), envSummary(c)), ""
+		}
+	}
 	return nil, ""
 }
 
